@@ -271,6 +271,8 @@ fn run_process(c: &CliCheck, serial: u64) -> Ran {
             libc::setrlimit(libc::RLIMIT_FSIZE, &fsize);
             let cpu = libc::rlimit { rlim_cur: 10, rlim_max: 12 };
             libc::setrlimit(libc::RLIMIT_CPU, &cpu);
+            // never outlive the worker (which the parent may kill at any moment)
+            libc::prctl(libc::PR_SET_PDEATHSIG, libc::SIGKILL);
             Ok(())
         });
     }
